@@ -1,7 +1,7 @@
 //! rs2lean — `fn` mode of the G tie: translate the bodies of a whitelist of pure integer
 //! functions of the repository under verification into Lean 4 definitions.
 //!
-//! usage: rs2lean --repo <path> --out <dir> [--only <group>] [--stdout]
+//! usage: rs2lean --repo <path> --out <dir> [--only <group>] [--stdout] [--file <rel.rs> --name <Out>]
 //!
 //! Exit status: 0 = all groups written; 2 = a target contains a construct outside the supported
 //! subset (reported as `file:line: what`), nothing is written for that group and a stale output
@@ -23,6 +23,19 @@ use std::path::{Path, PathBuf};
 fn find_items<'f>(file: &'f syn::File) -> Vec<&'f syn::Item> {
     // top level only (plus nothing from `mod tests`)
     file.items.iter().collect()
+}
+
+/// Any attribute inside a body (`#[cfg(..)]` on a statement or expression, `#[allow]`, ...) could
+/// change what is compiled; none is accepted.
+struct AttrFinder {
+    first: Option<(usize, String)>,
+}
+impl<'ast> syn::visit::Visit<'ast> for AttrFinder {
+    fn visit_attribute(&mut self, a: &'ast syn::Attribute) {
+        if self.first.is_none() {
+            self.first = Some((line_of(a), tok(a)));
+        }
+    }
 }
 
 fn impl_owner(i: &syn::ItemImpl) -> Option<String> {
@@ -64,13 +77,13 @@ fn translate_group(repo: &Path, g: &targets::Group) -> R<String> {
     }
 
     let mut d = Decls::default();
-    d.result_aliases = g.result_aliases.iter().map(|s| s.to_string()).collect();
+    d.result_aliases = g.result_aliases.clone();
 
     // ---- type declarations
-    for (f, name) in g.enums {
-        let p = &files[*f];
+    for (f, name) in &g.enums {
+        let p = &files[f];
         let it = find_items(&p.ast).into_iter().find_map(|it| match it {
-            syn::Item::Enum(e) if e.ident == name => Some(e),
+            syn::Item::Enum(e) if e.ident == name.as_str() => Some(e),
             _ => None,
         });
         match it {
@@ -78,10 +91,10 @@ fn translate_group(repo: &Path, g: &targets::Group) -> R<String> {
             None => return refuse(&p.rel, 0, format!("whitelisted enum `{}` not found", name)),
         }
     }
-    for (f, name) in g.structs {
-        let p = &files[*f];
+    for (f, name) in &g.structs {
+        let p = &files[f];
         let it = find_items(&p.ast).into_iter().find_map(|it| match it {
-            syn::Item::Struct(e) if e.ident == name => Some(e),
+            syn::Item::Struct(e) if e.ident == name.as_str() => Some(e),
             _ => None,
         });
         match it {
@@ -91,19 +104,19 @@ fn translate_group(repo: &Path, g: &targets::Group) -> R<String> {
     }
 
     // ---- constants (in whitelist order)
-    for (f, owner, name) in g.consts {
-        let p = &files[*f];
+    for (f, owner, name) in &g.consts {
+        let p = &files[f];
         let mut found = false;
         for it in find_items(&p.ast) {
             match it {
-                syn::Item::Const(c) if owner.is_empty() && c.ident == name => {
+                syn::Item::Const(c) if owner.is_empty() && c.ident == name.as_str() => {
                     d.add_const(&p.rel, "", &c.ident, &c.ty, &c.expr)?;
                     found = true;
                 }
-                syn::Item::Impl(i) if impl_owner(i).as_deref() == Some(*owner) => {
+                syn::Item::Impl(i) if impl_owner(i).as_deref() == Some(owner.as_str()) => {
                     for ii in &i.items {
                         if let syn::ImplItem::Const(c) = ii {
-                            if c.ident == name {
+                            if c.ident == name.as_str() {
                                 if found {
                                     return refuse(&p.rel, line_of(c), format!("constant `{}::{}` is defined twice", owner, name));
                                 }
@@ -131,22 +144,25 @@ fn translate_group(repo: &Path, g: &targets::Group) -> R<String> {
         text: String,
     }
     let mut srcs: Vec<Src> = vec![];
-    for (f, owner, name) in g.fns {
-        let p = &files[*f];
+    for (f, owner, name) in &g.fns {
+        let p = &files[f];
         let mut found: Option<Src> = None;
         for it in find_items(&p.ast) {
             match it {
-                syn::Item::Fn(func) if owner.is_empty() && func.sig.ident == name => {
+                syn::Item::Fn(func) if owner.is_empty() && func.sig.ident == name.as_str() => {
                     if found.is_some() {
                         return refuse(&p.rel, line_of(func), format!("fn `{}` is defined twice", name));
+                    }
+                    if func.attrs.iter().any(|a| a.path.is_ident("cfg") || a.path.is_ident("cfg_attr")) {
+                        return refuse(&p.rel, line_of(func), format!("fn `{}` is under `#[cfg]`", name));
                     }
                     let text = format!("{} {}", tok(&func.sig), tok(&func.block));
                     found = Some(Src { rel: p.rel.clone(), owner: String::new(), name: name.to_string(), sig: &func.sig, block: &func.block, text });
                 }
-                syn::Item::Impl(i) if !owner.is_empty() && impl_owner(i).as_deref() == Some(*owner) => {
+                syn::Item::Impl(i) if !owner.is_empty() && impl_owner(i).as_deref() == Some(owner.as_str()) => {
                     for ii in &i.items {
                         if let syn::ImplItem::Method(m) = ii {
-                            if m.sig.ident == name {
+                            if m.sig.ident == name.as_str() {
                                 if found.is_some() {
                                     return refuse(&p.rel, line_of(m), format!("fn `{}::{}` is defined twice", owner, name));
                                 }
@@ -179,6 +195,11 @@ fn translate_group(repo: &Path, g: &targets::Group) -> R<String> {
         let sig = d.fns[&(s.owner.clone(), s.name.clone())].clone();
         let (mut cx, params) = FnCx::new(&d, &s.rel, &s.owner, &sig);
         let ret = sig.ret.clone();
+        let mut af = AttrFinder { first: None };
+        syn::visit::Visit::visit_block(&mut af, s.block);
+        if let Some((l, a)) = af.first {
+            return refuse(&s.rel, l, format!("attribute `{}` inside the body of `{}`", a, s.name));
+        }
         let (mut body, _) = cx.block(s.block, Some(&ret))?;
         cx.zonk(&mut body, line_of(s.sig))?;
         let mut sig2 = sig.clone();
@@ -223,16 +244,16 @@ fn emit(g: &targets::Group, d: &Decls, fns: &[FnDef]) -> String {
         "/- GENERATED by rs2lean (mode `fn`) — do not edit.  Regenerated from the Rust sources on every\n   check run; `{}` proves each definition equal to the hand-written model.\n   {}\n\n   sources (sha256 of the token stream of each translated item):\n",
         g.tie, g.doc
     ));
-    let mut enums: Vec<&EnumDef> = g.enums.iter().map(|(_, n)| &d.enums[*n]).collect();
+    let mut enums: Vec<&EnumDef> = g.enums.iter().map(|(_, n)| &d.enums[n]).collect();
     enums.dedup_by_key(|e| e.name.clone());
     for e in &enums {
         o.push_str(&format!("     {}:{} enum {} {}\n", e.file, e.line, e.name, e.hash));
     }
-    for (_, n) in g.structs {
-        let s = &d.structs[*n];
+    for (_, n) in &g.structs {
+        let s = &d.structs[n];
         o.push_str(&format!("     {}:{} struct {} {}\n", s.file, s.line, s.name, s.hash));
     }
-    for (_, ow, n) in g.consts {
+    for (_, ow, n) in &g.consts {
         let c = &d.consts[&(ow.to_string(), n.to_string())];
         o.push_str(&format!("     {}:{} const {} {}\n", c.file, c.line, c.lean, c.hash));
     }
@@ -248,13 +269,11 @@ fn emit(g: &targets::Group, d: &Decls, fns: &[FnDef]) -> String {
         errs.extend(f.errs.iter().cloned());
     }
     if !errs.is_empty() {
-        o.push_str("/-- error values, abstracted to the path of their Rust constructor -/\ninductive Err where\n");
+        o.push_str("/-- The error values the targets construct, abstracted to the path of their Rust constructor\n(payloads are constant messages).  Every `Result`-returning target takes an `Errs ε`, so the tie\ninstantiates the constructors with the model's error values. -/\nstructure Errs (ε : Type) where\n");
         for e in &errs {
-            o.push_str(&format!("  | {}\n", e));
+            o.push_str(&format!("  {} : ε\n", e));
         }
-        o.push_str("  deriving Repr, DecidableEq, Inhabited\n\n");
-    } else {
-        o.push_str("/-- no target of this group constructs an error -/\nabbrev Err := Empty\n\n");
+        o.push('\n');
     }
 
     for e in &enums {
@@ -269,15 +288,15 @@ fn emit(g: &targets::Group, d: &Decls, fns: &[FnDef]) -> String {
         }
         o.push_str("  deriving Repr, DecidableEq, Inhabited\n\n");
     }
-    for (_, n) in g.structs {
-        let s = &d.structs[*n];
+    for (_, n) in &g.structs {
+        let s = &d.structs[n];
         o.push_str(&format!("/-- `struct {}` ({}:{}) -/\nstructure {} where\n", s.name, s.file, s.line, s.name));
         for (f, t) in &s.fields {
             o.push_str(&format!("  {} : {}\n", lean_ident(f), lower::lean_ty(t)));
         }
         o.push_str("  deriving Repr, DecidableEq, Inhabited\n\n");
     }
-    for (_, ow, n) in g.consts {
+    for (_, ow, n) in &g.consts {
         let c = &d.consts[&(ow.to_string(), n.to_string())];
         let b = match c.ty {
             Ty::Int(b, _) => b,
@@ -288,17 +307,18 @@ fn emit(g: &targets::Group, d: &Decls, fns: &[FnDef]) -> String {
     }
     for f in fns {
         let is_res = matches!(f.sig.ret, Ty::Res(..));
-        let mut lw = lower::Lower::new(if is_res { "Err" } else { "ε" });
+        let mut lw = lower::Lower::new("ε");
         let comp = lw.lower(&f.body, lower::K::Yield);
         o.push_str(&format!("/-- `{}` ({}:{}) -/\ndef {}", f.rust_path, f.file, f.line, f.sig.lean));
-        if !is_res {
-            o.push_str(" {ε : Type}");
+        o.push_str(" {ε : Type}");
+        if is_res {
+            o.push_str(" (E : Errs ε)");
         }
         o.push_str(" (p : Profile)");
         for (n, t) in &f.sig.params {
             o.push_str(&format!(" ({} : {})", n, lower::lean_ty(t)));
         }
-        o.push_str(&format!(" :\n    Res {} {} :=\n", if is_res { "Err" } else { "ε" }, lower::lean_ty_arg(&f.sig.ret)));
+        o.push_str(&format!(" :\n    Res ε {} :=\n", lower::lean_ty_arg(&f.sig.ret)));
         o.push_str(&lower::print(&comp, 2));
         o.push_str("\n\n");
     }
@@ -312,6 +332,8 @@ fn main() {
     let mut out: Option<PathBuf> = None;
     let mut only: Option<String> = None;
     let mut to_stdout = false;
+    let mut adhoc_file: Option<String> = None;
+    let mut adhoc_name: Option<String> = None;
     let mut i = 1;
     while i < args.len() {
         match args[i].as_str() {
@@ -327,12 +349,20 @@ fn main() {
                 only = args.get(i + 1).cloned();
                 i += 2;
             }
+            "--file" => {
+                adhoc_file = args.get(i + 1).cloned();
+                i += 2;
+            }
+            "--name" => {
+                adhoc_name = args.get(i + 1).cloned();
+                i += 2;
+            }
             "--stdout" => {
                 to_stdout = true;
                 i += 1;
             }
             other => {
-                eprintln!("rs2lean: unknown argument `{}`\nusage: rs2lean --repo <path> --out <dir> [--only <group>] [--stdout]", other);
+                eprintln!("rs2lean: unknown argument `{}`\nusage: rs2lean --repo <path> --out <dir> [--only <group>] [--stdout] [--file <rel.rs> --name <Out>]", other);
                 std::process::exit(64);
             }
         }
@@ -340,14 +370,34 @@ fn main() {
     let (repo, out) = match (repo, out) {
         (Some(r), Some(o)) => (r, o),
         _ => {
-            eprintln!("usage: rs2lean --repo <path> --out <dir> [--only <group>] [--stdout]");
+            eprintln!("usage: rs2lean --repo <path> --out <dir> [--only <group>] [--stdout] [--file <rel.rs> --name <Out>]");
             std::process::exit(64);
         }
     };
     let mut failed = false;
-    for g in targets::groups() {
+    let mut groups = targets::groups();
+    if let Some(f) = &adhoc_file {
+        let name = adhoc_name.clone().unwrap_or_else(|| "FnAdhoc".to_string());
+        match targets::adhoc(&repo, f, &name) {
+            Ok(g) => {
+                only = Some(name);
+                groups = vec![g];
+            }
+            Err(e) => {
+                eprintln!("rs2lean: {}", e);
+                std::process::exit(2);
+            }
+        }
+    }
+    if let Some(o) = &only {
+        if !groups.iter().any(|g| &g.out == o) {
+            eprintln!("rs2lean: unknown group `{}`", o);
+            std::process::exit(64);
+        }
+    }
+    for g in groups {
         if let Some(o) = &only {
-            if o != g.out {
+            if o != &g.out {
                 continue;
             }
         }
